@@ -81,6 +81,9 @@ def _mk_exc_classes() -> dict[str, type]:
 EXC_CLASSES = _mk_exc_classes()
 
 
+_CAUSE_MARK = LookupError("the operation's own `raise … from` cause")
+
+
 class Val:
     """An object returned by the operation; identity matters."""
 
@@ -591,24 +594,34 @@ class Env:
                 e._from_op = True  # type: ignore[attr-defined]
             except AttributeError:
                 object.__setattr__(e, "_from_op", True)
-            if tok.startswith("ordinary:"):
+            if tok.split(":")[0] in ("ordinary", "abort", "exhausted", "circuitOpen"):
                 cache[tok] = e
+                try:
+                    e.__cause__ = _CAUSE_MARK      # `raise X from Y` in the operation: must survive untouched
+                except Exception:  # noqa: BLE001
+                    pass
         return e
 
     async def aop(self) -> Any:
         self.op_count += 1
         a = self.ask(f"op {self.op_count}", "op", nested_ticks=self._maybe_nested())
-        if a.kind == "raise" and a.a.startswith("ordinary:"):
+        if a.kind == "raise" and a.a.split(":")[0] in ("ordinary", "abort", "exhausted", "circuitOpen"):
             raise self._op_exception(a.a)
         await self._araise_or(a)
         return self._val(a.a)
 
     def _classification(self, a: Ans):
         k = ErrorClass[a.a]
-        if a.b is None:
-            # exercise both accepted shapes
-            return k if (len(self.answers) & 1) else Classification(klass=k)
-        return Classification(klass=k, retry_after_s=a.b * TICK)
+        if a.b is None and (len(self.answers) & 1):
+            return k                           # exercise both accepted shapes
+        # equal classifications are the SAME object (a classifier returning module-level constants)
+        cache = self.__dict__.setdefault("_cls_cache", {})
+        key = (k, a.b)
+        c = cache.get(key)
+        if c is None:
+            c = cache[key] = (Classification(klass=k) if a.b is None
+                              else Classification(klass=k, retry_after_s=a.b * TICK))
+        return c
 
     def classifier(self, exc: BaseException):
         a = self.ask(f"classify {exn_ref(exc)}", "classify", {"exc": exn_ref(exc)})
@@ -805,6 +818,9 @@ def make_breaker(env: Env, cfg: LoopCfg):
         def record_cancel(self):
             super().record_cancel()
             env.log_internal("breakerCancel", f"recorded - {self.state.value}")
+
+        def __len__(self):           # "failures in the window": a breaker OBJECT may be falsy; the library must
+            return 0 if (env.wall_seed_bits & 4096) else 1      # test `is None`
 
     b = cfg.breaker
     trip_on = {ErrorClass[k] for k in b["trip"]}
@@ -1128,6 +1144,8 @@ def run_step(env: Env, built: Built, cfg: LoopCfg, which: str) -> StepResult:
                 names.append(tb.tb_frame.f_code.co_name)
                 tb = tb.tb_next
             tb_ok = any(n in ("op", "aop") for n in names)
+            if e.__cause__ is not _CAUSE_MARK:      # the library wrote to the caller's exception object
+                tb_ok = False
         notes["tb_ok"] = tb_ok
         notes.pop("own_timeline", None)
         notes.pop("own_timeline_start", None)
